@@ -426,7 +426,9 @@ def check_case(case):
         rec.mvn(Q, mu, mu_part, chol_factor)
         rec.in_mvn = True
         try:
-            val = o_mvn(Q, mu=mu, mu_part=mu_part, chol_factor=chol_factor, rng=ctx_rng if rng is None else getattr(rng, "_g", rng))
+            # (the generator argument goes through as the sampler gave it - None included; a generator the library then builds for
+            # itself with default_rng() is the seeded ctx_rng, see the patch of default_rng below, so the run stays reproducible)
+            val = o_mvn(Q, mu=mu, mu_part=mu_part, chol_factor=chol_factor, rng=getattr(rng, "_g", rng))
             if rec.last_c is not None and rec.block is not None:
                 rec.applied.append((rec.block, rec.last_c, np.array(val, dtype=float, copy=True)))
             return val
@@ -439,6 +441,12 @@ def check_case(case):
 
     state0 = npr.get_state()
     npr.seed(case["seed"] % (2**32))
+    o_default_rng = np.random.default_rng
+
+    def p_default_rng(seed=None, *a, **k):
+        return ctx_rng if seed is None and not a and not k else o_default_rng(seed, *a, **k)
+
+    np.random.default_rng = npr.default_rng = p_default_rng
     npr.normal, npr.gamma = p_normal, p_gamma
     np.random.normal, np.random.gamma = p_normal, p_gamma
     scm.sample_mvn_from_precision = p_mvn
@@ -476,6 +484,7 @@ def check_case(case):
     finally:
         npr.normal, npr.gamma = o_normal, o_gamma
         np.random.normal, np.random.gamma = o_normal, o_gamma
+        np.random.default_rng = npr.default_rng = o_default_rng
         scm.sample_mvn_from_precision = o_mvn
         npr.set_state(state0)
         for name, orig in originals.items():
